@@ -9,7 +9,7 @@ Exit codes (DESIGN.md section 1):
   1  VIOLATION property=<id> replay=<path>
   2  infrastructure problem (build failure, TLC crash/timeout, dead driver ...)
 """
-import json, os, re, shutil, subprocess, sys, tempfile, time, hashlib
+import json, os, re, shutil, subprocess, sys, tempfile, time, hashlib, itertools, threading
 
 ROOT = os.path.dirname(os.path.dirname(os.path.abspath(__file__)))
 SPEC = os.path.join(ROOT, "spec")
@@ -54,6 +54,14 @@ class TLCResult:
                     pass
         return res
 
+    def last_seq(self, var):
+        """value of a sequence-of-strings variable in the last state TLC printed (counterexample)"""
+        idx = self.out.rfind("/\\ %s = <<" % var)
+        if idx < 0:
+            return None
+        end = self.out.find(">>", idx)
+        return re.findall(r'"([^"]*)"', self.out[idx:end])
+
     def coverage_zero(self):
         """names of actions/expressions with zero count in -coverage output"""
         z = []
@@ -80,6 +88,8 @@ class Check:
         kf = os.path.join(ROOT, "KNOWN_FINDINGS.json")
         self.kf = json.load(open(kf)) if os.path.exists(kf) else {"findings": [], "fixed": []}
         self._distinct = set()
+        self._ctr = itertools.count()
+        self._lock = threading.Lock()
 
     # ------------------------------------------------------------------ helpers
     def quick(self):
@@ -99,11 +109,15 @@ class Check:
 
     # ------------------------------------------------------------------ TLC
     def tlc(self, specdir, module, cfg, workers=None, timeout=600, simulate=None, depth=None,
-            env=None, coverage=False, must_pass=True, label=None, extra=(), dfid=None, heap=None):
-        """Run TLC on spec/<specdir>/<module>.tla in a scratch copy. Returns TLCResult."""
+            env=None, coverage=False, must_pass=True, label=None, extra=(), dfid=None, heap=None, files=None, seed=None):
+        """Run TLC on spec/<specdir>/<module>.tla in a scratch copy. Returns TLCResult.
+        files: {name: content} written into the scratch copy (generated cfgs)."""
         src = os.path.join(SPEC, specdir)
-        dst = os.path.join(self.tmp, "tlc_%s_%d" % (specdir.replace("/", "_"), len(self.cov["tlc_runs"])))
+        dst = os.path.join(self.tmp, "tlc_%s_%d" % (specdir.replace("/", "_"), next(self._ctr)))
         shutil.copytree(src, dst)
+        for fn, content in (files or {}).items():
+            with open(os.path.join(dst, fn), "w") as fh:
+                fh.write(content)
         common = os.path.join(SPEC, "common")
         for f in os.listdir(common):
             if not os.path.exists(os.path.join(dst, f)):
@@ -118,7 +132,7 @@ class Check:
             cmd += ["-simulate", simulate]
             if depth:
                 cmd += ["-depth", str(depth)]
-            cmd += ["-seed", str(self.seed)]
+            cmd += ["-seed", str(self.seed if seed is None else seed)]
         if coverage:
             cmd += ["-coverage", "1"]
         cmd += list(extra) + [module + ".tla"]
@@ -140,7 +154,7 @@ class Check:
                                      "wall_s": round(r.wall, 1), "simulate": simulate or ""})
         if not self.cov["checker_cmd"]:
             self.cov["checker_cmd"] = "tlc -config %s spec/%s/%s.tla" % (cfg, specdir, module)
-        shutil.rmtree(os.path.join(dst, "meta"), ignore_errors=True)
+        shutil.rmtree(dst, ignore_errors=True)
         if must_pass and (r.violated or r.error):
             tail = "\n".join(out.splitlines()[-60:])
             raise Infra("TLC failed on %s/%s %s (violated=%s rc=%s)\n%s" % (specdir, module, cfg, r.violated, rc, tail))
